@@ -487,6 +487,48 @@ func init() {
 						judgeProgram(c, prog, data, "built-in-condition", false)
 					}})
 			}
+			// (3c') round 17: conditions computed by arithmetic - every ordered pair of + - * / % over operand triples for which the
+			// two groupings differ in being zero, written without parentheses, as literals and from the data
+			{
+				arith := []string{"+", "-", "*", "/", "%"}
+				triples := [][3]int64{{1, 3, 2}, {2, 4, 2}, {7, 4, 2}, {6, 3, 3}, {4, 2, 2}, {9, 3, 3}, {3, 3, 1}, {5, 5, 5}}
+				bin := func(op string, x, y model.Expr) model.Expr { return model.Binary{Op: op, L: x, R: y} }
+				secs = append(secs, core.Section{Name: "conditions-computed-by-arithmetic", Exhaustive: true, N: len(arith) * len(arith) * len(triples) * 2,
+					Run: func(c *core.Ctx, i int) {
+						asData := i%2 == 1
+						i /= 2
+						tr := triples[i%len(triples)]
+						i /= len(triples)
+						op1, op2 := arith[i/len(arith)], arith[i%len(arith)]
+						data := map[string]model.Value{}
+						operands := [3]model.Expr{}
+						for k := 0; k < 3; k++ {
+							operands[k] = model.Lit{V: model.Int(tr[k])}
+							if asData {
+								name := []string{"a", "b", "n"}[k]
+								data[name] = model.Int(tr[k])
+								operands[k] = model.Var{Name: name}
+							}
+						}
+						// the tree the precedences of the statement give to "x op1 y op2 z"
+						var cond model.Expr
+						product := func(op string) bool { return op == "*" || op == "/" || op == "%" } // these bind tighter than + and -; all associate to the left
+						if product(op2) && !product(op1) {
+							cond = bin(op1, operands[0], bin(op2, operands[1], operands[2]))
+						} else {
+							cond = bin(op2, bin(op1, operands[0], operands[1]), operands[2])
+						}
+						v := model.Var{Name: "v"}
+						prog := []model.Stmt{
+							model.If{Conds: []model.Expr{cond}, Bodies: [][]model.Stmt{{model.Text{S: "T"}}}, Else: []model.Stmt{model.Text{S: "F"}}}, model.Text{S: "|"},
+							model.If{Conds: []model.Expr{model.Lit{V: model.Bool(false)}, cond}, Bodies: [][]model.Stmt{{model.Text{S: "no"}}, {model.Text{S: "T"}}}, Else: []model.Stmt{model.Text{S: "F"}}}, model.Text{S: "|"},
+							model.Print{E: model.Ternary{C: cond, A: model.StrLit{S: "A"}, B: model.StrLit{S: "B"}}}, model.Text{S: "|"},
+							model.Each{Var: "v", Arr: intArr(1, 2, 3), Body: []model.Stmt{model.Print{E: v}, model.BreakIf{E: cond}, model.Text{S: ","}}}, model.Text{S: "|"},
+							model.Each{Var: "v", Arr: intArr(1, 2, 3), Body: []model.Stmt{model.Print{E: v}, model.ContinueIf{E: cond}, model.Text{S: ","}}},
+						}
+						judgeProgram(c, prog, data, "arithmetic-condition", false)
+					}})
+			}
 			// (3d) prefix operators in front of indexes, properties and calls: the operator applies to what the chain yields
 			{
 				flags, nums, obj := model.Var{Name: "flags"}, model.Var{Name: "nums"}, model.Var{Name: "obj"}
